@@ -21,6 +21,7 @@ func init() {
 			ruleC03R5(r)
 			ruleNameAgreement(r, "R6", "/iscp", "/wire")
 			ruleQoSPartition(r, "R7")
+			ruleC03R8(r)
 		},
 	})
 }
@@ -379,5 +380,44 @@ func ruleQoSPartition(r *Run, id string) {
 	for _, t := range tables {
 		same := t.Canon == ref.Canon
 		r.Check("partition in "+t.Fn, same, p.pos(t.Pos), t.Fn, fmt.Sprintf("%s groups the QoS values as %s; %s groups them as %s", t.Fn, t.Canon, ref.Fn, ref.Canon))
+	}
+}
+
+// ruleC03R8: package wire keeps two routing tables and two dispatch queues for downstream chunks, one per delivery
+// class, and names every function of the unreliable class …Unreliable…. A function of one class that touches the
+// other class's table or queue delivers chunks to the wrong subscribers (or to nobody).
+func ruleC03R8(r *Run) {
+	r.Begin("R8", "delivery classes are not mixed: in package wire a function whose name contains Unreliable touches only clientDownstreams.dpsUnreliable / msgDownstreamChunkUnreliableCh, and a function whose name contains DownstreamChunk but not Unreliable touches only clientDownstreams.dps / msgDownstreamChunkCh", 4)
+	p := r.P
+	rel := map[string]bool{"/wire.clientDownstreams.dps": true, "/wire.ClientConn.msgDownstreamChunkCh": true}
+	unrel := map[string]bool{"/wire.clientDownstreams.dpsUnreliable": true, "/wire.ClientConn.msgDownstreamChunkUnreliableCh": true}
+	for _, fn := range p.Funcs {
+		if fnPkgPath(fn) != modPath+"/wire" || fn.Blocks == nil {
+			continue
+		}
+		top := topFunc(fn)
+		nm := top.Name()
+		if o := top.Object(); o != nil {
+			nm = canon(o)
+		}
+		if !strings.Contains(nm, "DownstreamChunk") || strings.Contains(nm, "AckComplete") {
+			continue
+		}
+		isUn := strings.Contains(nm, "Unreliable")
+		name := fnName(fn)
+		seen := map[string]bool{}
+		allInstrs(fn, func(ins ssa.Instruction) {
+			fa, ok := ins.(*ssa.FieldAddr)
+			if !ok {
+				return
+			}
+			fk := fieldKeyOfAddr(fa)
+			if !rel[fk] && !unrel[fk] || seen[fk] {
+				return
+			}
+			seen[fk] = true
+			okc := (isUn && unrel[fk]) || (!isUn && rel[fk])
+			r.Check(name+" touches "+fk, okc, posOf(p, fa), name, fmt.Sprintf("function of the %s class uses %s", map[bool]string{true: "unreliable", false: "reliable"}[isUn], fk))
+		})
 	}
 }
